@@ -267,7 +267,7 @@ var c08LongProgs = []c08Long{
 	// seventh round: more executed nexts than the evaluation-nesting limit (50000) has levels, so that bookkeeping which
 	// loses a single level per next is noticed; and deep (legal) recursion after many nexts
 	{"next-inside-function-long", "function f(v) { if (v % 2 == 0) { next } return v } { s = s + f($) } END { print s }", 130000},
-	{"next-in-rule-then-recursion", "function sum(n) { if (n == 0) { return 0 } return n + sum(n - 1) } { if ($ % 4 != 0) { next } s = s + $ } END { print s, sum(3500) }", 60000},
+	{"next-in-rule-then-recursion", "function sum(n) { if (n == 0) { return 0 } return n + sum(n - 1) } { if ($ % 4 != 0) { next } s = s + $ } END { print s, sum(900) }", 80000},
 }
 
 func c08LongRun(c *Case, lp c08Long, n int) {
@@ -311,7 +311,7 @@ func c08ParseLong(name string) *Program {
 		n := V("n")
 		sum := &Func{Name: "sum", Params: []string{"n"}, Body: Blk(&If{C: Bin("==", n, N("0")), Then: Blk(&Return{X: N("0")})}, &Return{X: Bin("+", n, CallE(V("sum"), Bin("-", n, N("1"))))})}
 		return &Program{Items: []any{sum, &Rule{Kind: "pattern", Body: Blk(&If{C: Bin("!=", Bin("%", d, N("4")), N("0")), Then: Blk(&Next{})}, add(d))},
-			&Rule{Kind: "END", Body: Blk(Pr(s, CallE(V("sum"), N("3500"))))}}}
+			&Rule{Kind: "END", Body: Blk(Pr(s, CallE(V("sum"), N("900"))))}}}
 	case "next-inside-function", "next-inside-function-long":
 		f := &Func{Name: "f", Params: []string{"v"}, Body: Blk(&If{C: Bin("==", Bin("%", v, N("2")), N("0")), Then: Blk(&Next{})}, &Return{X: v})}
 		return &Program{Items: []any{f, &Rule{Kind: "pattern", Body: Blk(add(CallE(V("f"), d)))}, endS}}
@@ -491,6 +491,9 @@ func c08Cases(tier string) int {
 
 func c08Run(c *Case) {
 	i := c.Idx
+	if i == 0 {
+		round8Hand(c, "C08")
+	}
 	nl := len(c08LongProgs)
 	switch {
 	case i < nl:
@@ -539,7 +542,7 @@ func c08Run(c *Case) {
 func init() {
 	register(&Prop{
 		ID: "C08", Level: "exploration",
-		Rule:          "sampled: programs with 1-4 generated functions (arity 0-4, called with too few / exact / too many arguments in every expression position, parameter reassignment, callee locals, global updates, container parameters with element stores, returns from loops and match blocks, nested calls) plus a recursion library (fact, fib, mutual even/odd, ackermann, sumto up to depth 900); after every call the caller prints its own state and probes every callee name with `is unknown`; trace vs reference model, plus the frame automaton M4 (depth at each rule start equals the baseline). Enumerated: 8 long-history programs over 10000 elements (thorough: up to 50000) whose result is compared with the model, 2 more with 65000 / 45000 executed nexts (130000 / 60000 elements, the second followed by a recursion 3500 deep), and 5 runaway-recursion shapes whose refusal depth must be identical after 0/1/10/5000 completed calls and after one completed recursion 900 deep. 42 programs (results computed by hand) in which argument names coincide with the callee's parameter names in another order (swap, rotate, through match bindings, globals, document fields) or match bindings are read after a recursive call through the same match returned (sums, tree walks, mutual recursion, nested matches), two calls of one function separated by more than 65536 other frames, names created inside a case body (gone when the case ends), several omitted parameters (separate nulls). Non-trivial = >= 3 calls and an arity mismatch or recursion; long runs and probes count as non-trivial.",
+		Rule:          "sampled: programs with 1-4 generated functions (arity 0-4, called with too few / exact / too many arguments in every expression position, parameter reassignment, callee locals, global updates, container parameters with element stores, returns from loops and match blocks, nested calls) plus a recursion library (fact, fib, mutual even/odd, ackermann, sumto up to depth 900); after every call the caller prints its own state and probes every callee name with `is unknown`; trace vs reference model, plus the frame automaton M4 (depth at each rule start equals the baseline). Enumerated: 8 long-history programs over 10000 elements (thorough: up to 50000) whose result is compared with the model, 2 more with 65000 / 60000 executed nexts (130000 / 80000 elements, the second followed by a recursion 900 deep), and 5 runaway-recursion shapes whose refusal depth must be identical after 0/1/10/5000 completed calls and after one completed recursion 900 deep. 42 programs (results computed by hand) in which argument names coincide with the callee's parameter names in another order (swap, rotate, through match bindings, globals, document fields) or match bindings are read after a recursive call through the same match returned (sums, tree walks, mutual recursion, nested matches), two calls of one function separated by more than 65536 other frames, names created inside a case body (gone when the case ends), several omitted parameters (separate nulls). Non-trivial = >= 3 calls and an arity mismatch or recursion; long runs and probes count as non-trivial.",
 		NumCases:      c08Cases,
 		Run:           c08Run,
 		MinConclusive: func(tier string) int { return 3000 },
